@@ -235,7 +235,9 @@ fn gen_program(t: &mut Tape, st: &mut Stats, max_lines: usize) -> Vec<Line> {
             1 => {
                 let (f, v) = gen_val(t);
                 let label = if t.chance(1, 8) { ":nolabel".to_string() } else { format!(":{}", t.pick(LABELS)) };
-                ins.args = vec!["gl".into(), label, t.below(3).to_string(), f, v];
+                // one jump in twenty is taken hundreds of times before it falls through
+                let count = if t.chance(1, 20) { 300 + t.below(1300) } else { t.below(3) };
+                ins.args = vec!["gl".into(), label, count.to_string(), f, v];
             }
             2 => {
                 let (f, v) = gen_val(t);
@@ -244,7 +246,8 @@ fn gen_program(t: &mut Tape, st: &mut Stats, max_lines: usize) -> Vec<Line> {
                     1 => n + 1 + t.below(1000),
                     _ => t.below(n),
                 };
-                ins.args = vec!["gn".into(), target.to_string(), t.below(3).to_string(), f, v];
+                let count = if t.chance(1, 20) { 300 + t.below(1300) } else { t.below(3) };
+                ins.args = vec!["gn".into(), target.to_string(), count.to_string(), f, v];
             }
             3 => {
                 let (f, v) = if t.flip() {
@@ -599,12 +602,16 @@ fn case_with(t: &mut Tape, st: &mut Stats, max_lines: usize) -> Verdict {
         None
     };
     let source = path.clone().unwrap_or_default();
-    let m = match model(&lines, included, &init, handler_at_start, &on_error, &source, 5000) {
+    let long_running = lines.iter().any(|l| l.ins.args.get(2).and_then(|c| c.parse::<u32>().ok()).map(|c| c >= 300).unwrap_or(false) && matches!(l.ins.args.first().map(|a| a.as_str()), Some("gl") | Some("gn")));
+    let m = match model(&lines, included, &init, handler_at_start, &on_error, &source, if long_running { 60_000 } else { 5000 }) {
         Some(m) => m,
         None => return Verdict::Discard("model step bound exceeded"),
     };
     for c in &m.classes {
         st.class(c);
+    }
+    if m.steps >= 1000 {
+        st.class("run-of-1000-or-more-instruction-executions");
     }
     // run
     hz_reset();
@@ -695,7 +702,7 @@ fn case_large(t: &mut Tape, st: &mut Stats) -> Verdict {
 pub fn property() -> Property {
     Property {
         id: "C03",
-        rule: "programs of 1..40 (thorough: ..120) lines over a scripted command whose result (continue/goto label/goto line/exit/error/crash, with or without value, with jump countdowns) is dictated by its arguments, with labels from a small pool (duplicates, undefined targets), forward/backward/out-of-range line jumps, unknown commands, arguments reading variables, an on_error command (registered at the start or not, and registered / removed by the scripted command while the script runs) answering continue/exit/crash/error/goto or writing a variable, and recording the variables it sees when called, text or file mode, one script in five starting with an !include_files of 1..4 empty / comment lines (whose empty instructions precede the script's own, so jump targets shift while source lines do not); compared with an abstract machine transcribed from the statement: full call log (arguments, line index, output variable), on_error call log, final variables, Ok/Err with source line (and source file). Non-trivial: >=2 result kinds executed and >=1 jump or error; distinct by (script, configuration) hash",
+        rule: "programs of 1..40 (thorough: ..120) lines over a scripted command whose result (continue/goto label/goto line/exit/error/crash, with or without value, with jump countdowns of 0..2 and, for one jump in twenty, 300..1600) is dictated by its arguments, with labels from a small pool (duplicates, undefined targets), forward/backward/out-of-range line jumps, unknown commands, arguments reading variables, an on_error command (registered at the start or not, and registered / removed by the scripted command while the script runs) answering continue/exit/crash/error/goto or writing a variable, and recording the variables it sees when called, text or file mode, one script in five starting with an !include_files of 1..4 empty / comment lines (whose empty instructions precede the script's own, so jump targets shift while source lines do not); compared with an abstract machine transcribed from the statement: full call log (arguments, line index, output variable), on_error call log, final variables, Ok/Err with source line (and source file). Non-trivial: >=2 result kinds executed and >=1 jump or error; distinct by (script, configuration) hash",
         assumptions: &[
             "instructions with an output variable but no command, and exit values that are integers written with a plus sign / spaces or outside i32, are not generated (zero written as 00, 000 or -0 is an integer zero: the run succeeds)",
             "error messages are plain text (messages with expansion syntax belong to C10)",
@@ -708,7 +715,7 @@ pub fn property() -> Property {
                     Tier::Thorough => Plan::Random { cases: 20_000_000, max_len: 900 },
                 },
                 case: case_small,
-                min_classes: &[("continue-none-deletes-set-variable", 1000), ("backward-line-jump", 1000), ("out-of-range-jump", 500), ("duplicate-label-target", 500), ("on_error-crash", 200), ("error-right-after-jump", 300), ("file-mode", 1000), ("handler-registered-during-the-run", 1000), ("handler-removed-during-the-run", 1000), ("on_error-writes-the-failing-output-variable", 50), ("script-starts-with-an-include", 10000)],
+                min_classes: &[("continue-none-deletes-set-variable", 1000), ("backward-line-jump", 1000), ("out-of-range-jump", 500), ("duplicate-label-target", 500), ("on_error-crash", 200), ("error-right-after-jump", 300), ("file-mode", 1000), ("handler-registered-during-the-run", 1000), ("handler-removed-during-the-run", 1000), ("on_error-writes-the-failing-output-variable", 50), ("script-starts-with-an-include", 10000), ("run-of-1000-or-more-instruction-executions", 150)],
             },
             Section {
                 name: "large-programs",
